@@ -246,7 +246,7 @@ def run_case(spec):
 def check(rep, tier, seed, specs=None, n_override=None):
     quick = tier == 'quick'
     if specs is None:
-        n = n_override or (1200 if quick else 60000)
+        n = n_override or (4000 if quick else 60000)
         specs = [{'seed': common.hash64('c15', 'fixed' if i < n // 2 else seed, i), 'e2e': i % 2 == 0} for i in range(n)]
     results, lost = common.shard_run('c15', specs, timeout_s=1500 if quick else 6 * 3600)
     rep.rule = ('logical fusions between generated multi-isoform genes (4 strand combinations; donor breakpoint exonic / exon end / intronic / last '
